@@ -319,6 +319,22 @@ Definition bm_sanitize (doc : str) (toks : list htoken) : str :=
 Definition html_model (items : list item) (toks2 : list htoken) : str :=
   bm_sanitize (style_tag_filter items) toks2.
 
+(** H-tok for style values as a computable check (evaluated by the oracle on every case): every
+    style attribute the policy's tokenizer reports on the rewritten document carries a value
+    sanitizeStyle produced for some style attribute of the original document *)
+Definition style_vals_of_items (items : list item) : list str :=
+  flat_map (fun it => match it with
+                      | Raw _ => []
+                      | Tag _ attrs _ =>
+                          flat_map (fun a => match a with
+                                             | Attr k _ toks => if str_eqb (go_lower k) style_key then [sanitize_style toks] else []
+                                             end) attrs
+                      end) items.
+
+Definition h_tok_style_check (items : list item) (toks2 : list htoken) : bool :=
+  forallb (fun t => forallb (fun a => negb (str_eqb (a_key a) s_style) || mem_str (a_val a) (style_vals_of_items items))
+                            (t_attrs t)) toks2.
+
 (* ----------------------------------------------------------------------------- SPEC *)
 
 (** the scheme a browser sees in an attribute value used as a URL (WHATWG URL parsing, the part
